@@ -8,6 +8,7 @@ side conditions and to have the shape the models assume, by computation.  The mo
 the `fmtw dump` / `fmtw load` correspondence streams.
 -/
 import Iodata.Lemmas.Fmt.FcidumpW
+import Iodata.Lemmas.Fmt.PoscarW
 import Iodata.Gen.LayoutsW
 
 namespace Iodata.Props.C02W
@@ -64,6 +65,47 @@ example : (FcidumpW.dump fcidumpL ⟨1, fun _ _ => ⟨true, 12345678901234567, -
     none, some (9999999999999998, 1000000000000000), some (1, 2)⟩) =
     [" &FCI NORB=1,NELEC=10,MS2=0,\n".toList, "  ORBSYM= 1,\n".toList, "  ISYM=1\n".toList, " &END\n".toList,
      " 1.0000000000000000e+00    1    1    1    1\n".toList, "-1.2345678901234567e-03    1    1    0    0\n".toList] := by
+  decide +kernel
+
+/-! ## POSCAR (text layer over the structure layer) -/
+
+/-- POSCAR: reading back the written file gives the numbers of the file digit by digit (cell rows, direct coordinates of
+every atom, all 16 decimals, any magnitude and sign incl. `-0`), the title (default when absent), and the atoms in the
+documented grouping (by element, heaviest first, original order inside a group) — for every number of atoms and every
+element of the table. -/
+theorem poscar_load_dump (T : Tables) (L : PoscarW.Layout) (hL : PoscarW.LayoutOK L) (o : PoscarW.Obj) (h : PoscarW.Dom T o) :
+    PoscarW.load T L (PoscarW.dump T L o) = .ok (PoscarW.norm L o) :=
+  PoscarW.load_dump T L hL o h
+
+/-- POSCAR: the only re-ordering is the grouping, which is a permutation that keeps every atom's element and coordinates
+together (records are never split), keeps the order inside an element, and is the identity on an already grouped list. -/
+theorem poscar_reordering (L : PoscarW.Layout) (o : PoscarW.Obj) :
+    (PoscarW.norm L o).atoms.Perm o.atoms ∧
+    (∀ z, (PoscarW.norm L o).atoms.filter (fun a => a.zn == z) = o.atoms.filter (fun a => a.zn == z)) ∧
+    (PoscarW.norm L o).cell = o.cell :=
+  ⟨Poscar.group_perm _ _, fun z => Poscar.group_stable _ _ z, rfl⟩
+
+/-- POSCAR: the layout in the source satisfies the side conditions, every element Z = 1..118 is usable in the element
+line, and writer / reader in the source have the shape the model transcribes (eight `print` calls with their fields;
+`rvec / angstrom`, the descending element order, `inv(cell).T`, `np.dot(gvecs, r)`; the reader's `s` / `c k` switches,
+`split()[:3]`, `angstrom * scaling`, `np.dot(frac, cellvecs)`). -/
+theorem poscar_source_shape :
+    PoscarW.LayoutOK poscarL ∧ (∀ z ∈ List.range' 1 118, PoscarW.okZ tables z = true) ∧
+    poscar_writes = PoscarW.expectedWrites poscarL ∧ poscarSource = PoscarW.expectedSource ∧
+    PoscarW.scaleVal poscarL = ⟨false, 10 ^ poscarL.scaleD⟩ := by
+  decide +kernel
+
+/-- non-vacuity: a domain object whose numbers fill and overflow the 21 columns, with `-0`, and its file. -/
+example : PoscarW.Dom tables ⟨[], [⟨⟨false, 99999999999999999999⟩, ⟨true, 0⟩, ⟨false, 0⟩⟩, ⟨⟨true, 1234567890123456⟩, ⟨false, 5⟩, ⟨false, 0⟩⟩,
+    ⟨⟨false, 0⟩, ⟨false, 0⟩, ⟨true, 123456789012345678901⟩⟩], [⟨1, ⟨⟨false, 0⟩, ⟨false, 5000000000000000⟩, ⟨true, 1⟩⟩⟩, ⟨8, ⟨⟨false, 0⟩, ⟨false, 0⟩, ⟨false, 0⟩⟩⟩]⟩ := by
+  decide +kernel
+
+example : PoscarW.dump tables poscarL ⟨[], [⟨⟨false, 99999999999999999999⟩, ⟨true, 0⟩, ⟨false, 0⟩⟩], [⟨1, ⟨⟨false, 0⟩, ⟨false, 5000000000000000⟩, ⟨true, 1⟩⟩⟩, ⟨8, ⟨⟨false, 0⟩, ⟨false, 0⟩, ⟨false, 0⟩⟩⟩]⟩ =
+    ["Created with IOData\n".toList, "   1.00000000000000\n".toList,
+     " 9999.9999999999999999   -0.0000000000000000    0.0000000000000000\n".toList, "O     H    \n".toList, "    1     1\n".toList,
+     "Selective dynamics\n".toList, "Direct\n".toList,
+     "     0.0000000000000000    0.0000000000000000    0.0000000000000000   F   F   F\n".toList,
+     "     0.0000000000000000    0.5000000000000000   -0.0000000000000001   F   F   F\n".toList] := by
   decide +kernel
 
 end Iodata.Props.C02W
